@@ -9,7 +9,7 @@
    produce errors, not crashes.  Proved here for the model formatter fmt = print ∘ norm ∘ parse;
    for format.Source it is checked on generated programs only (hence "partial"). *)
 From Coq Require Import List String Bool.
-From GZ Require Import C20.Model C20.Proofs C20.Check C20.ProofsCheck C20.Scanner C20.ScannerProofs.
+From GZ Require Import C20.Model C20.Proofs C20.Check C20.ProofsCheck C20.Scanner C20.ScannerProofs C20.ScannerFuel.
 Import ListNotations.
 Open Scope string_scope.
 Open Scope list_scope.
@@ -26,10 +26,7 @@ Print Assumptions parse_print_roundtrip.
    formatted token stream is a fixed point of the formatter. *)
 Theorem model_formatter_idempotent : forall ts a, parse ts = Some a -> wf a = true ->
   exists out, fmt ts = Some out /\ fmt out = Some out.
-Proof.
-  intros ts a Hp Hwf. destruct (fmt_idempotent ts a Hp Hwf) as [H1 H2].
-  exists (print (norm a)). split; assumption.
-Qed.
+Proof. exact fmt_idempotent_ex. Qed.
 Print Assumptions model_formatter_idempotent.
 
 (* Meaning preservation: the formatted text parses to the same API description, where "same"
@@ -55,10 +52,7 @@ Print Assumptions norm_preserves_wf.
 Theorem model_formatter_preserves_ast_without_empties : forall ts a,
   parse ts = Some a -> wf a = true -> norm a = a ->
   exists out, fmt ts = Some out /\ parse out = parse ts.
-Proof.
-  intros ts a Hp Hwf Hn. destruct (fmt_meaning ts a Hp Hwf) as (out & H1 & H2).
-  exists out. split; [exact H1|]. rewrite H2, Hn, Hp. reflexivity.
-Qed.
+Proof. exact fmt_ast_without_empties. Qed.
 Print Assumptions model_formatter_preserves_ast_without_empties.
 
 (* ---- the per-program check (Check.v) is tied to these statements, not an oracle ---- *)
@@ -86,7 +80,7 @@ Print Assumptions description_equality_is_decided.
 (* the layout comparison implies the comparison of kinds and texts ... *)
 Theorem layout_check_implies_same_tokens : forall cpos f m,
   layout_ok cpos f m = true -> map strip f = map strip m.
-Proof. intros cpos f m H. apply toks_eqb_eq. eapply layout_ok_toks. exact H. Qed.
+Proof. exact layout_ok_strip. Qed.
 Print Assumptions layout_check_implies_same_tokens.
 
 (* ... accepts the canonical text itself ... *)
@@ -108,7 +102,7 @@ Print Assumptions layout_check_is_exact_without_comments.
    construct" (the only excuses of the finding C20-comment-dropped) are read off Model.v *)
 Theorem marked_printer_is_the_formatter : forall a,
   map fst (mark a) = print a /\ map fst (filter snd (mark a)) = print (norm a) /\ mark_consistent a = true.
-Proof. intros a. split; [apply mark_tokens|split; [apply mark_kept|apply mark_consistent_true]]. Qed.
+Proof. exact mark_is_formatter. Qed.
 Print Assumptions marked_printer_is_the_formatter.
 
 (* comments: "no comment invented" (the formatted comments are a subsequence of the source's)
@@ -141,6 +135,59 @@ Theorem text_roundtrip : forall a, wf a = true -> forallb lexb (print a) = true 
   exists ts, scan (str (render (print a))) = (ts, [], true) /\ parse ts = Some a.
 Proof. exact char_roundtrip. Qed.
 Print Assumptions text_roundtrip.
+
+(* ---- "the scanner reports errors rather than crashing", on the model: the scanner is total for
+   the right reason.  [scan_all] is written with fuel; on EVERY text (valid or not: unterminated
+   strings and comments, illegal characters, NUL bytes, a dangling '@') every token other than a
+   final ILLEGAL one consumes at least one character ... *)
+Theorem scanner_token_consumes_input : forall c s,
+  match next_token (c :: s) with
+  | STok k _ rest => k = RTok KIllegal \/ List.length rest <= List.length s
+  | _ => True
+  end.
+Proof. exact next_token_good. Qed.
+Print Assumptions scanner_token_consumes_input.
+
+(* ... so the fuel never runs out: any amount above the length of the text gives the result of
+   [scan].  "No error" always means that the end of the text (or an ILLEGAL token, where the parser
+   stops) was reached, never that the model gave up ... *)
+Theorem scanner_fuel_never_runs_out : forall src f,
+  List.length (list_ascii_of_string src) < f -> scan_all f 1 (list_ascii_of_string src) = scan_raw src.
+Proof. exact scan_raw_fuel. Qed.
+Print Assumptions scanner_fuel_never_runs_out.
+
+(* ... and the error flag is raised exactly by a step of scanner.go that returns an error (SErr:
+   string or comment not closed, '@' followed by something that is not doc/handler/server, a
+   duration cut short by the end of the text) before any ILLEGAL token: the scan is the unfolding
+   of NextToken, one step at a time, with no bound *)
+Theorem scanner_is_the_iteration_of_next_token : forall f line s,
+  List.length s < f ->
+  scan_all f line s =
+  let '(line', s') := skip_ws line s in
+  match next_token s' with
+  | SEof => ([], true)
+  | SErr => ([], false)
+  | STok k text rest =>
+    let t := RT k (str text) line' in
+    match k with
+    | RTok KIllegal => ([t], true)
+    | _ => let '(l, ok) := scan_all (List.length rest + 1) line' rest in (t :: l, ok)
+    end
+  end.
+Proof. exact scan_all_step. Qed.
+Print Assumptions scanner_is_the_iteration_of_next_token.
+
+(* invalid texts on the model scanner: an error (not closed string / comment, unknown @-word), an
+   ILLEGAL token that ends the stream (the parser stops there), and tokens before either are kept *)
+Example ex_scan_errors :
+  scan "a ""bc" = ([tI "a"], [], false) /\
+  scan "a /* x" = ([tI "a"], [], false) /\
+  scan "@foo" = ([], [], false) /\
+  scan "a # b" = ([tI "a"; tP KIllegal "#"], [], true) /\
+  scan "1sx y" = ([tP KDur "1s"; tI "x"; tI "y"], [], true) /\
+  scan "1s2x y" = ([tP KIllegal "x"], [], true) /\
+  scan "type T { A int `json" = ([tI "type"; tI "T"; tP KLBrace "{"; tI "A"; tI "int"], [], false).
+Proof. vm_compute. repeat split; reflexivity. Qed.
 
 (* ---- non-vacuity: a program using every construct of the language *)
 Definition ex_api : api :=
